@@ -8,16 +8,37 @@ TRUSTED = ['the expected matches are computed from the generated documents with 
            'documented normalisation (lower-case, NFKD, strip combining marks); the model receives normalize_form as a table']
 
 
+def crafted(rng):
+    # forms differing only in case / diacritics, shared across words and parts of speech, non-lemma forms
+    lx = {'id': 'sf', 'label': 'search forms', 'language': 'en', 'email': 'e', 'license': 'l', 'version': '1', 'meta': None,
+          'entries': [], 'synsets': []}
+    words = [('Dog', 'n', ['Dogs']), ('dog', 'v', ['dogs', 'dogged']), ('Résumé', 'n', ['Résumés']), ('resume', 'v', ['resumed']),
+             ('résumé', 'a', []), ('Pole', 'n', ['Poles']), ('pole', 'n', ['poles']), ('pole', 'v', ['poles', 'poled']),
+             ('hot dog', 'n', ['hot dogs']), ('straße', 'n', [])]
+    rng.shuffle(words)
+    for i, (lemma, pos, forms) in enumerate(words):
+        lx['synsets'].append({'id': 'sf-ss%d' % i, 'ili': '', 'partOfSpeech': pos, 'meta': None})
+        lx['entries'].append({'id': 'sf-e%d' % i, 'meta': None, 'lemma': {'writtenForm': lemma, 'partOfSpeech': pos},
+                              'forms': [{'writtenForm': f} for f in forms],
+                              'senses': [{'id': 'sf-e%d-s' % i, 'synset': 'sf-ss%d' % i, 'meta': None}]})
+    return ('sf:1', {'lmf_version': '1.1', 'lexicons': [lx]})
+
+
+LEM = {'cats': {'n': ['cat'], 'v': ['cat', 'cats']}, 'running': {'v': ['run'], '': ['running']}, 'ran': {'v': ['run', 'Ran']},
+       'dogs': {'n': ['dog', 'Dog']}, 'Cat': {}, 'Dogs': {'n': ['Dog'], 'v': ['Dog']}, 'Poles': {'n': ['Pole'], 'v': ['Pole']},
+       'Résumés': {'n': ['Résumé'], 'v': ['Résumé'], 'a': ['Résumé']}, 'poles': {'': ['pole', 'poles']}}
+
+
 def tweak(rng, u):
-    u['searches'] = [[f, p] for f in rng.sample(coremodel.SEARCH_FORMS, 14) for p in rng.sample([None, 'n', 'v', 'a', 'x'], 2)]
+    u['resources'].append(crafted(rng))
+    u['searches'] = [[f, p] for f in rng.sample(coremodel.SEARCH_FORMS, 10) + ['Dogs', 'Poles', 'Résumés', 'poles', 'POLE', 'Résumé', 'dogs'] for p in rng.sample([None, None, 'n', 'v', 'a', 'x'], 2)]
     u['translate_to'] = None
     cfgs = []
     base = rng.choice([n for n, _ in u['resources']])
     for norm in (True, False):
         for allf in (True, False):
-            for lem in (None, {'cats': {'n': ['cat'], 'v': ['cat', 'cats']}, 'running': {'v': ['run'], '': ['running']},
-                               'ran': {'v': ['run', 'Ran']}, 'dogs': {'n': ['dog', 'Dog']}, 'Cat': {}}, 'morphy', 'morphy_init'):
-                c = {'lexicon': base, 'expand': '', 'normalizer': norm, 'search_all_forms': allf}
+            for lem in (None, LEM, 'morphy', 'morphy_init'):
+                c = {'lexicon': rng.choice([base, 'sf:1', 'sf:1']), 'expand': '', 'normalizer': norm, 'search_all_forms': allf}
                 if lem:
                     c['lemmatizer'] = lem
                 cfgs.append(c)
